@@ -3,17 +3,63 @@
 
 use std::sync::OnceLock;
 
+use crate::conv;
+use crate::gen::{self, GenCfg};
+use crate::render::{self, Style};
+use crate::tape::{splitmix, Tape};
+use crate::valgen::{self, TyCfg};
+
+fn tape(i: u64, salt: u64, n: usize) -> Tape {
+    Tape::new((0..n as u64).map(|k| splitmix(i * 1_000_003 + salt * 7919 + k) as u32).collect())
+}
+
 pub fn programs() -> &'static Vec<String> {
     static P: OnceLock<Vec<String>> = OnceLock::new();
-    P.get_or_init(Vec::new)
+    P.get_or_init(|| {
+        let mut out = vec![];
+        for i in 0..120u64 {
+            let mut t = tape(i, 1, 500);
+            let cfg = if i % 3 == 0 { GenCfg::general() } else { GenCfg { params: i % 4 == 1, ..GenCfg::small() } };
+            let g = gen::generate(&mut t, cfg);
+            let style = if i % 2 == 0 { Style::canonical() } else { Style::from_seed(splitmix(i)) };
+            out.push(render::render(&g.prog, &style));
+        }
+        out
+    })
+}
+
+fn maps(i: u64) -> Vec<(String, crate::model::Val, crate::model::Ty)> {
+    let mut t = tape(i, 2, 300);
+    let n = 1 + t.index(5);
+    let mut items = vec![];
+    for k in 0..n {
+        let ty = valgen::gen_ty(&mut t, &TyCfg::GENERAL, 0);
+        let v = valgen::gen_val(&mut t, &ty);
+        items.push((format!("N{k}"), v, ty));
+    }
+    items
 }
 
 pub fn modules() -> &'static Vec<String> {
     static P: OnceLock<Vec<String>> = OnceLock::new();
-    P.get_or_init(Vec::new)
+    P.get_or_init(|| {
+        (0..60u64)
+            .map(|i| {
+                let style = if i % 2 == 0 { Style::canonical() } else { Style::from_seed(splitmix(i + 99)) };
+                render::module_text(if i % 3 == 0 { "param" } else { "witness" }, &maps(i), &style)
+            })
+            .collect()
+    })
 }
 
 pub fn jsons() -> &'static Vec<String> {
     static P: OnceLock<Vec<String>> = OnceLock::new();
-    P.get_or_init(Vec::new)
+    P.get_or_init(|| {
+        (0..60u64)
+            .filter_map(|i| {
+                let w = conv::witness_values(&maps(i + 1000));
+                serde_json::to_string_pretty(&w).ok()
+            })
+            .collect()
+    })
 }
